@@ -100,19 +100,19 @@ _SESSION_NOTE = ("Trusted base: the harness (reference models, terminal emulator
 MANIFEST_TEXT = {
     "C01": {"technique": "runtime monitoring: lockstep reference tokenizer/classifier + exactly-once dispatch monitor on handler log, hooked line and sink tail per Enter",
             "design_ref": "DESIGN.md §6 C01",
-            "text": "Held on every Enter of 1.6e5 (quick) / 4e6 (thorough) seeded random editing sessions incl. recall, completion, inside-inserts, multi-byte characters, buffer sizes 0..64; exploration only, no claim beyond the sessions run.",
+            "text": "Held on every Enter of 1.6e5 (quick) / 4e6 (thorough) seeded random editing sessions (recall, completion, inside-inserts, arbitrary scalar values, application calls between bytes, buffer sizes 0..64) and on every transition of a breadth-first closure of small-buffer sessions (1.2e6 / 3.4e7 hooked states); the dispatch is judged against the hooked line, the ideal edit history, the visible line and the keys the byte stream spells. Exploration only, no claim beyond the executions run.",
             "note": _SESSION_NOTE},
     "C05": {"technique": "runtime monitoring: ideal Vec<char> editor in lockstep with the hooked editor state after every byte; state-space closure of the real Editor in small buffers",
             "design_ref": "DESIGN.md §6 C05",
-            "text": "Lockstep equality with an ideal scalar-value editor after every key of the random sessions, plus exhaustive closure of the real editor's reachable states for capacities 0..=6 over characters of all four UTF-8 lengths.",
+            "text": "Lockstep equality with an ideal scalar-value editor after every key of the random sessions; exhaustive closure of the real Editor's reachable states for capacities 0..=10/14 and through Cli::process_byte for 0..=7/10 over characters of all four UTF-8 lengths; whole-Cli session closure in small buffers; array-backed buffers compared byte for byte with slice-backed ones.",
             "note": _SESSION_NOTE},
     "C06": {"technique": "runtime monitoring: ECMA-48 terminal emulator fed the sink bytes, row and cursor column compared with prompt + hooked line after every API call",
             "design_ref": "DESIGN.md §6 C06",
-            "text": "Emulator row/column equality after every call of random sessions with writes and prompt changes injected between any two input bytes; exploration.",
+            "text": "Emulator row/column equality after every call of random sessions with writes (every write form) and prompt changes injected between any two input bytes, and after every transition of the small-buffer session closure; exploration.",
             "note": _SESSION_NOTE + " Assumes width-1 glyphs and an unbounded-width terminal."},
     "C10": {"technique": "runtime monitoring: set-valued history model vs hooked line after Up/Down and raw stored entries after every Enter; closure of the real History for small budgets",
             "design_ref": "DESIGN.md §6 C10",
-            "text": "Every recall and every stored-entries snapshot of the random sessions matches the model (open points of the statement kept as alternatives); closure of the real History component for budgets 0..=12.",
+            "text": "Every recall and every stored-entries snapshot of the random sessions and of the small-buffer session closure matches the set-valued model (open points of the statement kept as alternatives); closure of the real History component for budgets 0..=14/20.",
             "note": _SESSION_NOTE},
     "C13": {"technique": "runtime monitoring: byte-exact framing oracle on the sink bytes of each Enter, emulator-row oracle for Cli::write",
             "design_ref": "DESIGN.md §6 C13",
